@@ -92,11 +92,15 @@ def run(ctx):
         ctx.extra["leaves_" + inst] = len(inv)
         cases = sample_cases(ctx, inv, rnd, 6 if thorough else 1)
         if thorough:
-            # every transcript-bound leaf (not in a query round) x every perturbation
+            # every transcript-bound leaf (not in a query round) x every perturbation; one query round suffices for these (and halves the cost)
+            tb = []
             for li in inv:
                 if li["round"] < 0 and li["cls"] != "VD.cap":
                     for kind in KINDS:
-                        cases.append({"path": li["path"], "kind": kind, "cls": li["cls"], "sel": li["sel"]})
+                        tb.append({"path": li["path"], "kind": kind, "cls": li["cls"], "sel": li["sel"]})
+            for i in range(common.NCPU):
+                if tb[i::common.NCPU]:
+                    jobs.append({"part": "perturb", "instance": inst, "k": 1, "cases": tb[i::common.NCPU], "table": table, "shard": 100 + i})
         other = [x for x in ("testdata", "random") if CIRCUIT[x] != CIRCUIT[inst]][0]
         cases.append({"path": "", "kind": "vd_other:" + other, "cls": "VD", "sel": False})
         nsh = common.NCPU if thorough else 6
